@@ -944,6 +944,24 @@ def gen_element_case(rng):
           'props': props, 'children': kids}
 
 
+ODD_KINDS = ['bytes', 'opaque', 'frozenset', 'float', 'none', 'bool']
+
+
+def gen_oddkeys(rng):
+  """A symbolic value that holds, inside a tuple, a PLAIN dict whose keys are neither str nor int
+  (a pg.Dict cannot hold such keys; a plain dict in a tuple is stored as it is). Oracle-only family."""
+  keys = []
+  for _ in range(rng.randint(1, 3)):
+    kind = rng.choice(ODD_KINDS[:3]) if rng.chance(0.75) else rng.choice(ODD_KINDS[3:])
+    text = gen_string(rng)
+    if kind == 'bytes':
+      text = ''.join(c for c in text if 32 <= ord(c) < 127 and c not in '\'"\\') or '<b>'
+    keys.append([kind, text])
+  opts = {'key_style': 'label' if rng.chance(0.7) else 'summary', 'enable_key_tooltip': rng.chance(0.6),
+          'collapse_level': rng.choice([None, 0, 1, 2])}
+  return {'op': 'oddkeys', 'keys': keys, 'wrap': rng.choice(['tuple', 'list-in-tuple', 'nested']), 'opts': opts}
+
+
 def has_meta(s):
   return any(c in s for c in '<>&"\'')
 
@@ -1078,10 +1096,15 @@ class C20(Prop):
         h['outer'] = {'key_style': 'label'}
       h['fresh_process'] = True
       yield h
+    # oracle-only family: plain dicts with keys that are neither str nor int, held inside tuples
+    for _ in range(120 if quick else 3000):
+      yield gen_oddkeys(rng)
 
   # -- model side ---------------------------------------------------------------------------
   def model_request(self, case):
     op = case['op']
+    if op == 'oddkeys':
+      return None        # oracle-only family (no Lean model of non-str / non-int keys)
     if op == 'escape':
       return {'op': 'escape', 's': cps(case['s'])}
     if op == 'parse':
@@ -1446,6 +1469,8 @@ class C20(Prop):
       return {'model': {'html': h, 'doc': None if tree is None else strip_doc(tree)}, 'why': why}
     if op == 'render':
       return self._impl_render(case)
+    if op == 'oddkeys':
+      return self._impl_oddkeys(case)
     if op == 'control':
       return self._impl_control(case)
     if op == 'jsescape':
@@ -1458,6 +1483,57 @@ class C20(Prop):
     if op == 'history':
       return self._impl_history(case)
     raise ValueError(op)
+
+  def _odd_value(self, case, benign):
+    import pyglove as pg
+    d = {}
+    for i, (kind, text) in enumerate(case['keys']):
+      # equal keys stay equal in the benign twin (the dict has the same number of entries)
+      t = 'k%d' % [j for j, kt in enumerate(case['keys']) if kt == [kind, text]][0] if benign else text
+      if kind == 'bytes':
+        k = t.encode('ascii', 'replace')
+      elif kind == 'opaque':
+        k = Opaque(t)
+      elif kind == 'frozenset':
+        k = frozenset([t])
+      elif kind == 'float':
+        k = 0.5 + i
+      elif kind == 'none':
+        k = None
+      else:
+        k = bool(i % 2)
+      d[k] = 'v%d' % i
+    if case['wrap'] == 'tuple':
+      return pg.Dict(a=(d,)), list(d)
+    if case['wrap'] == 'list-in-tuple':
+      return pg.List([1, ([d, 2],)]), list(d)
+    return pg.Dict(x=pg.Dict(y=({'in': (d,)},))), list(d)
+
+  def _impl_oddkeys(self, case):
+    import pyglove as pg
+    out = {}
+    kw = dict(case['opts'])
+    try:
+      value, keys = self._odd_value(case, False)
+      content = pg.to_html_str(value, content_only=True, **kw)
+    except Exception as e:   # pylint: disable=broad-except
+      return {'error': type(e).__name__, 'message': str(e)[:200]}
+    tree, why = strict_parse(content)
+    out['ok'], out['why'] = tree is not None, why
+    try:
+      bvalue, _ = self._odd_value(case, True)
+      btree, _ = strict_parse(pg.to_html_str(bvalue, content_only=True, **kw))
+    except Exception as e:   # pylint: disable=broad-except
+      btree = None
+      out['benign_error'] = type(e).__name__
+    out['benign_ok'] = btree is not None
+    if tree is not None and btree is not None:
+      out['skeleton_equal'] = skeleton(tree) == skeleton(btree)
+      out['new_tags'] = sorted({n[0] for n in walk(tree)} - {n[0] for n in walk(btree)})
+    if tree is not None:
+      texts = texts_of(tree)
+      out['missing'] = [str(k) for k in keys if case['opts']['key_style'] == 'label' and str(k) not in texts]
+    return out
 
   def _impl_history(self, case):
     import contextlib
@@ -1946,6 +2022,18 @@ class C20(Prop):
       return None
     if op == 'control':
       return self._oracle_control(case, out)
+    if op == 'oddkeys':
+      if 'error' in out:
+        # no document is produced (e.g. the summary-style key of a nested plain dict asserts str / int keys):
+        # the property speaks about the documents that ARE produced; counted in the input distribution only
+        return None
+      if not out['ok']:
+        return {'signature': 'not-well-formed', 'what': 'keys %r: %s' % (case['keys'], out['why'])}
+      if out.get('benign_ok') and not out.get('skeleton_equal', True):
+        return {'signature': 'data-introduces-markup',
+                'what': 'a dict key that is neither str nor int (%r, %s) changes the element structure; new tags: %s' % (
+                    case['keys'], case['opts'], out.get('new_tags'))}
+      return None
     # render
     if 'build_error' in out:
       return {'signature': 'value-construction-raises:' + out['build_error'], 'what': 'building the value raised'}
@@ -2054,6 +2142,11 @@ class C20(Prop):
 
   # -- bookkeeping ---------------------------------------------------------------------------
   def nontrivial(self, case, out):
+    if case['op'] == 'oddkeys':
+      return any(has_meta(t) for _, t in case['keys'])
+    return self._nontrivial(case, out)
+
+  def _nontrivial(self, case, out):
     op = case['op']
     if op in ('escape', 'parse'):
       return has_meta(case['s'])
@@ -2075,6 +2168,12 @@ class C20(Prop):
                + [t or '' for t in case.get('tooltips') or []])
 
   def describe(self, case, out):
+    if case['op'] == 'oddkeys':
+      return ['op:oddkeys', 'oddkeys:key_style:' + str(case['opts']['key_style'])] + \
+          ['oddkeys:kind:' + k for k, _ in case['keys']] + (['oddkeys:raises:' + out['error']] if 'error' in out else [])
+    return self._describe(case, out)
+
+  def _describe(self, case, out):
     op = case['op']
     h = ['op:' + op]
     if op == 'parse':
@@ -2149,6 +2248,14 @@ class C20(Prop):
     return h
 
   def shrink_candidates(self, case):
+    if case['op'] == 'oddkeys':
+      for i in range(len(case['keys'])):
+        if len(case['keys']) > 1:
+          yield dict(case, keys=case['keys'][:i] + case['keys'][i + 1:])
+      return
+    yield from self._shrink_all(case)
+
+  def _shrink_all(self, case):
     """Candidates that keep a failure reproducible on its own: a value that holds two equal but
     differently printed scalars (True / 1 / 1.0, …) is not shrunk below such a pair, because with
     one of them alone the outcome would depend on what the process rendered before."""
